@@ -90,7 +90,7 @@ class TranslatorC(Translator):
         if expr.size <= self.NATIVE_INT_MAX_SIZE:
             assert expr.size <= 64
             out = "0x%x" % int(expr)
-            if expr.size == 64:
+            if expr.size > 32:
                 out += "ULL"
             return out
         value, int_size = int_size_to_bn(int(expr), expr.size)
